@@ -247,6 +247,56 @@ Proof.
 Qed.
 
 (* ------------------------------------------------------------------ *)
+(* neighbour selection of the n-point fit                                *)
+
+Local Close Scope R_scope.
+
+Lemma take_present_spec : forall (present : id -> bool) (n : nat) (l : list id),
+  take_present present n l = firstn n (filter present l).
+Proof.
+  intros present n l. revert n. induction l as [|b t IH]; intros n.
+  - destruct n; reflexivity.
+  - destruct n as [|n']; [reflexivity|]. cbn [take_present filter].
+    destruct (present b); cbn [firstn]; [rewrite IH; reflexivity | apply IH].
+Qed.
+
+Lemma firstn_In : forall (X : Type) (n : nat) (l : list X) (x : X), In x (firstn n l) -> In x l.
+Proof.
+  intros X n. induction n as [|n IH]; intros l x H; [destruct H|].
+  destruct l as [|a t]; [destruct H|]. cbn [firstn] in H. destruct H as [-> | H]; [left; reflexivity | right; apply IH; exact H].
+Qed.
+
+(* whatever the bond graph, the presence predicate and the atom: if a fit is made it uses exactly
+   three names, each of them a present atom from get_nearest_bonds, namely the FIRST three present
+   ones; with an absent peptide pointer the pseudo atom is never among them *)
+Theorem fit_neighbours_sound : forall (g : graph) (present : id -> bool) (x : id) (l : list id),
+  fit_names g present x = Some l ->
+  List.length l = 3%nat /\
+  (forall b, In b l -> In b (nearest_bonds g x) /\ present b = true) /\
+  l = firstn 3 (filter present (nearest_bonds g x)).
+Proof.
+  intros g present x l H. unfold fit_names in H.
+  destruct (Nat.eqb (List.length (take_present present 3 (nearest_bonds g x))) 3) eqn:E; [|discriminate].
+  injection H as <-. apply Nat.eqb_eq in E. split; [exact E|]. split.
+  - intros b Hb. rewrite take_present_spec in Hb. apply firstn_In in Hb. apply filter_In in Hb. exact Hb.
+  - apply take_present_spec.
+Qed.
+
+Corollary fit_skips_absent_pointer : forall (g : graph) (np1 cm1 : id) (has_pn has_pc : bool) (atoms : list id) (x : id) (l : list id),
+  fit_names g (present_in np1 cm1 has_pn has_pc atoms) x = Some l ->
+  (has_pn = false -> ~ In np1 l) /\ (has_pc = false -> np1 <> cm1 -> ~ In cm1 l).
+Proof.
+  intros g np1 cm1 has_pn has_pc atoms x l H.
+  destruct (fit_neighbours_sound _ _ _ _ H) as (_ & Hs & _).
+  split.
+  - intros Hf Hin. destruct (Hs _ Hin) as [_ Hp]. unfold present_in in Hp. rewrite Pos.eqb_refl in Hp. congruence.
+  - intros Hf Hne Hin. destruct (Hs _ Hin) as [_ Hp]. unfold present_in in Hp.
+    destruct (Pos.eqb cm1 np1) eqn:E; [apply Pos.eqb_eq in E; congruence|]. rewrite Pos.eqb_refl in Hp. congruence.
+Qed.
+
+Local Open Scope R_scope.
+
+(* ------------------------------------------------------------------ *)
 (* generated obligations                                                *)
 
 Local Close Scope R_scope.
